@@ -199,6 +199,24 @@ impl<P: Payload> World<P> {
                     None
                 }
             }
+            Sel::SlotAlt(s) => {
+                let s = s as usize;
+                if s < self.m.n.len() {
+                    let mut a = self.arg(s);
+                    if !a.live {
+                        // another valid way to name the removed node: ask the arena for the id of that slot
+                        let alt = catch_unwind(AssertUnwindSafe(|| self.arena.as_slice().get(s).and_then(|n| self.arena.get_node_id(n))));
+                        if let Ok(Some(id)) = alt {
+                            if usize::from(id) == s + 1 {
+                                a.id = id;
+                            }
+                        }
+                    }
+                    Some(a)
+                } else {
+                    None
+                }
+            }
             Sel::Live(k) | Sel::Rel(_, k) => {
                 let live = self.m.live_slots();
                 if live.is_empty() {
@@ -669,6 +687,24 @@ impl<P: Payload> World<P> {
     /// the links are well-formed — and payload expectations from the stored values.  Returns false
     /// if the arena cannot serve as a new ground truth.
     pub fn resync(&mut self) -> bool {
+        // transactional: the model is only replaced if the arena can serve as the new ground truth
+        let saved = self.m.clone();
+        let ok = self.resync_inner();
+        if !ok {
+            self.m = saved;
+        }
+        ok
+    }
+
+    fn resync_inner(&mut self) -> bool {
+        let c = self.arena.count();
+        if c < self.m.n.len() && self.m.n[c..].iter().all(|m| !m.live) {
+            // the arena dropped trailing removed slots (a C07 matter): follow it, keep the id ledger
+            for s in (c..self.m.n.len()).rev() {
+                self.m.set_free(s, FreeState::NotFree);
+            }
+            self.m.n.truncate(c);
+        }
         if self.arena.count() != self.m.n.len() {
             return false;
         }
@@ -761,7 +797,22 @@ impl<P: Payload> World<P> {
 
     /// Resolve every selector of `op` against the current model state.
     pub fn concretize(&self, op: &Op) -> Option<Op> {
-        let slot = |a: Arg| Sel::Slot(a.slot as u16);
+        let slot = |a: Arg| Sel::Slot(a.slot as u32);
+        // already concrete (enumerators, probes, replays): keep as is, SlotAlt included
+        let concrete = |s: &Sel| matches!(s, Sel::Slot(_) | Sel::SlotAlt(_));
+        if let Op::Insert { target, node, .. } = op {
+            if concrete(target) && concrete(node) {
+                self.resolve(*target, None)?;
+                self.resolve(*node, None)?;
+                return Some(op.clone());
+            }
+        }
+        if let Op::AppendValue { parent, .. } = op {
+            if concrete(parent) {
+                self.resolve(*parent, None)?;
+                return Some(op.clone());
+            }
+        }
         Some(match op {
             Op::AppendValue { parent, v } => Op::AppendValue { parent: slot(self.resolve(*parent, None)?), v: *v },
             Op::Insert { kind, checked, target, node } => {
